@@ -62,15 +62,29 @@ def node_ids(spec, prefix=""):
     seen, seen_in = {}, {}
     out = []
     for i, nd in enumerate(spec["nodes"]):
+        # (two DIFFERENT decorated functions may carry one qualified name - made by a factory, defined in two modules: their
+        # usages are numbered together, `alias_of` names the function whose name this one carries)
+        qn = spec["fns"][nd["fn"]].get("alias_of", nd["fn"])
         if nest and nest["first"] <= i <= nest["last"]:
-            k = seen_in.get(nd["fn"], 0)
-            seen_in[nd["fn"]] = k + 1
-            out.append(prefix + nest["name"] + "." + (nd["fn"] if k == 0 else "%s<<%d>>" % (nd["fn"], k)))
+            k = seen_in.get(qn, 0)
+            seen_in[qn] = k + 1
+            out.append(prefix + nest["name"] + "." + (qn if k == 0 else "%s<<%d>>" % (qn, k)))
             continue
-        k = seen.get(nd["fn"], 0)
-        seen[nd["fn"]] = k + 1
-        out.append(prefix + (nd["fn"] if k == 0 else "%s<<%d>>" % (nd["fn"], k)))
+        k = seen.get(qn, 0)
+        seen[qn] = k + 1
+        out.append(prefix + (qn if k == 0 else "%s<<%d>>" % (qn, k)))
     return out
+
+
+def _twin(fn, qualname):
+    """Another function object that carries the (qualified) name `qualname`."""
+
+    def twin(*a, **k):
+        return fn(*a, **k)
+
+    twin.__name__ = twin.__qualname__ = qualname
+    twin.__module__ = getattr(fn, "__module__", "twzprog")
+    return twin
 
 
 def arg_src(a):
@@ -368,7 +382,8 @@ def build_tawazi(spec, plain=None, dag_kwargs=None, extra_env=None, wrap_site=No
         if fs.get("tag") is not None:
             t = fs["tag"]
             kw["tag"] = tuple(t) if isinstance(t, list) else t
-        xns[name] = declare_xn(plain[name], kw, name, salt=spec.get("salt", spec.get("name", "")) + str(len(spec["nodes"])))
+        body = _twin(plain[name], fs["alias_of"]) if fs.get("alias_of") else plain[name]
+        xns[name] = declare_xn(body, kw, name, salt=spec.get("salt", spec.get("name", "")) + str(len(spec["nodes"])))
     env = {"c%d" % i: xns[nd["fn"]] for i, nd in enumerate(spec["nodes"])}
     env.update(named_constants())
     if spec.get("nest"):
@@ -467,3 +482,27 @@ def jsonable(x):
     if isinstance(x, (str, int, float, bool)) or x is None:
         return x
     return repr(x)
+
+
+SPELL_COUNTS: Counter = Counter()
+
+
+def spell_selections(kw):
+    """A selection is "an iterable of aliases": about three selections in eight are handed over as a one-shot iterator, a
+    generator or a tuple instead of a list (decided by the content, so that a replay spells it the same way).  A library that
+    walks the iterable twice sees an empty selection the second time."""
+    out = dict(kw)
+    for k in ("target_nodes", "exclude_nodes", "root_nodes", "cache_deps_of"):
+        v = out.get(k)
+        if isinstance(v, list):
+            h = zlib.crc32(repr((k, [a if isinstance(a, (str, tuple)) else type(a).__name__ for a in v])).encode()) % 8
+            if h == 0:
+                out[k] = iter(list(v))
+                SPELL_COUNTS["selection_given_as_one_shot_iterator"] += 1
+            elif h == 1:
+                out[k] = (a for a in list(v))
+                SPELL_COUNTS["selection_given_as_generator"] += 1
+            elif h == 2:
+                out[k] = tuple(v)
+                SPELL_COUNTS["selection_given_as_tuple"] += 1
+    return out
